@@ -807,6 +807,13 @@ fn run_sweep_inner(prop: &'static str, sc: &Scenario, ctl: &Arc<Ctl>, record_onl
             if !ok {
                 sh.viol(&["C04", "C02"], "unexpected_error", format!("A {:?} failed with {}", sc.a, e));
             }
+            // a non-waiting get against close(): a slot was free when the call began and nobody but close() ran
+            // meanwhile, so the call either got its object (it came first) or was told Closed (close came first).
+            // "no slot free" fits neither order.
+            let slot_was_free = st.max > st.main_held && !st.waiter;
+            if matches!(sc.a, AOp::GetNb) && sc.b == BOp::Close && slot_was_free && e == "Timeout(Wait)" {
+                sh.viol(&["C06", "C10", "C02"], "timeout_instead_of_closed", format!("non-waiting get() with a free slot ({} of {} out), overlapped by close() only, failed with Timeout(Wait)", st.main_held, st.max));
+            }
         }
         ARes::Panicked(m) => {
             log.push(format!("A -> PANIC {}", m));
